@@ -183,4 +183,42 @@ theorem delay_pipeline_example_closed_raw :
       some [⟨['I'], 1, some 3, none, DelayDemo.inset, .temporal 1⟩] := by
   decide +kernel
 
+/-! #### sidecars that declare definitions (`validateClosedRawD`) -/
+
+/-- `raw_defs_is_composition`: with a sidecar that may declare definitions the raw pipeline is the raw pipeline in the
+environment whose dictionary is the sidecar's extracted definitions followed by the external ones. -/
+theorem raw_defs_is_composition (env : Validate.Env) (k : Consts) (sc : Sidecar) (t : Table) :
+    validateClosedRawD env k sc t =
+      validateClosed (Closed.envWith env (sidecarDict env sc)) k.kBanned (rawCfg k sc t) (rawRows sc t) := rfl
+
+theorem total_closed_rawD (env : Validate.Env) (k : Consts) (sc : Sidecar) (t : Table) (hm : k.maskByRow = true)
+    (hg : k.guardDelay = true) : ∃ out, validateClosedRawD env k sc t = .ok out :=
+  total_closed_raw (envD env sc) k sc t hm hg
+
+/-- `cell_issue_closed_rawD`: cell issues are `Validate.basic` issues of the assembled text in the enlarged dictionary. -/
+theorem cell_issue_closed_rawD (env : Validate.Env) (k : Consts) (sc : Sidecar) (t : Table) (out : List Issue)
+    (h : validateClosedRawD env k sc t = .ok out) (i : Issue) (hi : i ∈ out) (p c : Nat) (hs : i.src = .cell p c) :
+    ∃ n r name vi, t.rows[n]? = some r ∧ (aRow sc t.header r)[c]? = some (name, i.text) ∧
+      vi ∈ Validate.basic (envD env sc) false i.text ∧ i.kind = vi.code ++ [':'] ++ vi.kind.name ∧ i.sev = vi.sev ∧
+      i.row = some (n + 2) ∧ i.col = some name :=
+  cell_issue_closed_raw (envD env sc) k sc t out h i hi p c hs
+
+/-- `{"d": {"HED": {"d1": "(Definition/Mk/#, (Label/#))"}}, "e": {"HED": {"go": "Def/Mk/ab", "no": "Def/Mk"}}}` -/
+def defSidecar : Sidecar :=
+  [(['d'], .obj [(HEDNAME, .obj [(['d','1'], .str ['(','D','e','f','i','n','i','t','i','o','n','/','M','k','/','#',',',' ','(','L','a','b','e','l','/','#',')',')'])])]),
+   (['e'], .obj [(HEDNAME, .obj [(['g','o'], .str ['D','e','f','/','M','k','/','a','b']), (['n','o'], .str ['D','e','f','/','M','k'])])])]
+
+/-- columns `e | HED`, rows `go | Def/Mk/x`, `no | Red`, `go | Def/Zz` -/
+def defTable : Table :=
+  ⟨[['e'], HEDNAME], [[['g','o'], ['D','e','f','/','M','k','/','x']], [['n','o'], ['R','e','d']], [['g','o'], ['D','e','f','/','Z','z']]]⟩
+
+/-- `defs_pipeline_example_closed_raw`: the definition `Mk/#` is declared only in the sidecar (column `d`, not a column of
+the file).  Row 2 uses it rightly in both columns; row 3 assembles `Def/Mk` (value missing) in column `e`; row 4 uses the
+undeclared `Def/Zz` in the HED column. -/
+theorem defs_pipeline_example_closed_raw :
+    (validateClosedRawD C01.Tiny.env rawConsts defSidecar defTable).toOption =
+      some [⟨kindOf .defValueMissing, 1, some 3, some ['e'], ['D','e','f','/','M','k'], .cell 1 1⟩,
+            ⟨kindOf .defUnmatched, 1, some 4, some HEDNAME, ['D','e','f','/','Z','z'], .cell 2 0⟩] := by
+  decide +kernel
+
 end HedVerif.C07
